@@ -58,6 +58,9 @@ class Family:
             return min(len(py), len(lean)), f"python has {len(py)} records, model {len(lean)}"
         return None, None
 
+    def procs_for(self, n):
+        return 16 if n >= 4000 else 1
+
     # -- generic
     def _work(self, args):
         seed, n, base = args
@@ -136,7 +139,7 @@ class Family:
 
     def __call__(self, ctx, escalate=1):
         n = ctx.scale(self.n_quick, self.n_thorough) * escalate
-        procs = 16 if n >= 4000 else 1
+        procs = self.procs_for(n)
         per = (n + procs - 1) // procs
         jobs = [(ctx.rng.randrange(1 << 60), per, k * per) for k in range(procs)]
         if procs == 1:
@@ -219,7 +222,18 @@ class GraphFamily(Family):
     name = "g"
     ops_key = "path"
 
+    def procs_for(self, n):
+        return max(1, min(8, n))     # every scenario runs up to 3 x 1,000,000 actions
+
     def gen(self, rng, profile):
+        if rng.random() < 0.3:
+            # the plain ring, searched for something that is not there: every next() must end in
+            # InfiniteLoopDetected, also the next() after one that already did, also from a Match
+            sc = {"fam": "g", "nodes": [["d", [["self", 0], ["x", 1]]], ["s", 1]], "root": 0,
+                  "path": [["rec"], ["k", "nope"]], "nexts": 2}
+            if rng.random() < 0.5:
+                sc["src"] = {"path": [["k", "self"]], "k": 0}
+            return sc
         n = rng.randint(2, 5)
         nodes = []
         keys = ["a", "b", "x", "self", "k"]
@@ -249,16 +263,26 @@ class GraphFamily(Family):
             steps.append(["par"])      # (filters are left out: the harness' call log would unfold cyclic data)
         if rng.random() < 0.3:
             steps = [["k", rng.choice(keys)]] + steps
-        return {"fam": "g", "nodes": nodes, "root": 0, "path": steps, "nexts": rng.randint(1, 3)}
+        sc = {"fam": "g", "nodes": nodes, "root": 0, "path": steps, "nexts": rng.randint(1, 3)}
+        if rng.random() < 0.4 and nodes[0][0] == "d":
+            # start from a Match (nested traverser): the k-th match of a plain key path
+            sc["src"] = {"path": [["k", rng.choice([k for k, _ in nodes[0][1]])]], "k": 0}
+        return sc
 
     def observe(self, sc):
         from observe import observe_graph
         return observe_graph(sc)
 
     def nontrivial(self, sc, py):
+        if isinstance(py, str):
+            return False
         return any(r["s"][0] == "X" for r in py) or sum(1 for r in py if r["s"][0] == "R") >= 1
 
     def classify(self, ctx, sc, py):
+        if isinstance(py, str):
+            ctx.count("graph:" + py)
+            return
+        ctx.count("graph-src:" + ("match" if sc.get("src") else "doc"))
         for r in py:
             ctx.count("graph:" + (r["s"][0] if r["s"][0] != "X" else "X:" + r["s"][1][0]))
 
